@@ -18,7 +18,7 @@ ID = "C05"
 LEVEL = "fault_enumeration"
 ENGINES = ["E4", "E3"]
 RULE = (
-    "work item = (document, phases, workers, continue_on_failure, max_failures, unique_inputs, API behaviour, single fault = stage x "
+    "work item = (document, phases, workers, continue_on_failure, max_failures, unique_inputs, generation modes, API behaviour, single fault = stage x "
     "exception kind x k-th occurrence x transient|persistent); every schedule with <=p pre-emptions is executed on the real engine and the "
     "yielded events are replayed through the real CLI event loop; distinct = distinct (item, event sequence); non-trivial = the fault "
     "actually fired or a check actually failed"
@@ -45,6 +45,7 @@ KINDS_ALL = ["RuntimeError", "ValueError", "KeyError", "AttributeError", "Assert
              "InvalidArgument", "PatternError"]
 STAGES = ["iterate", "construct", "generate", "before_call", "transport", "after_call", "check"]
 OPS = {"unit3": ["GET /a", "GET /b", "GET /c"], "unit2": ["GET /a", "GET /b"], "link": ["POST /users", "GET /users/{id}"],
+       "one_a": ["GET /a"], "one_b": ["GET /b"],
        **{name: ["GET /a", "GET /b"] for name in ee.BROKEN_DOCS}}
 
 
@@ -108,10 +109,59 @@ def items(tier: str, seed: int) -> list[dict]:
         for kind in (["RuntimeError", "ConnectionError"] if tier == "quick" else kinds):
             add(doc="link", phases=["stateful"], fault={"stage": stage, "kind": kind, "path": "/users", "k": 1, "persistent": False})
     add(doc="link", phases=["stateful"], fault={"stage": "iterate", "kind": "RuntimeError", "path": "/users", "k": 1, "persistent": True})
+    _review_round_2(add, tier)
     # CLI event handling
     for kind in ("RuntimeError", "KeyError"):
         add(fault={"stage": "cli_handler", "kind": kind, "path": "", "k": 3, "persistent": False})
     return out
+
+
+def _review_round_2(add: Any, tier: str) -> None:
+    """Shapes the property quantifies over that the first version left out (one worker, no pre-emption unless the shape is
+    about interleaving)."""
+    all_unit = ["examples", "coverage", "fuzzing"]
+    # -- API behaviours: WHICH response of an operation violates the check
+    add(behaviour="nth:/a:1", max_examples=3)               # the first response fails, later ones would succeed
+    add(behaviour="nth:/a:1", max_examples=3, cof=True)     # ... and the later ones DO succeed (continue_on_failure)
+    add(behaviour="nth:/a:3", max_examples=3, cof=True)     # only the LAST response of the operation fails
+    add(behaviour="even:/a", max_examples=4, cof=True)      # every second response fails
+    add(behaviour="neg:/a", max_examples=3, phases=all_unit)  # one region of the input fails: reached by the last phase only
+    add(behaviour="noquery:/a", phases=all_unit, cof=True)  # the boundary input (optional parameter left out) fails
+    # a failing check only on the request the stateful phase can build (the id handed out by the API)
+    add(doc="link", phases=["stateful"], behaviour="fail_linked_user")
+    add(doc="link", phases=[*all_unit, "stateful"], behaviour="fail_linked_user")
+    # a response with a documented status whose BODY violates the documented schema
+    for phases in (["fuzzing"], ["stateful"], [*all_unit, "stateful"]):
+        add(doc="link", phases=phases, behaviour="bad_body", extra_checks="schema")
+    # -- configurations
+    add(phases=all_unit, behaviour="fail:/b", unique=True)          # unique inputs, the same request in several phases
+    add(phases=all_unit, behaviour="fail:/b", max_failures=1)       # limit reached by the last operation, a later phase is skipped
+    add(phases=["coverage", "fuzzing"], behaviour="neg:/a", max_failures=1, max_examples=3)  # ... reached in the last phase
+    add(phases=all_unit, max_failures=1, fault={"stage": "transport", "kind": "ConnectionError", "path": "/b", "k": 1, "persistent": True})
+    add(phases=all_unit, behaviour="fail:/b", cof=True, workers=2)
+    add(behaviour="fail:/a", max_examples=1)
+    # -- generation modes: negative data only (an operation without parameters has nothing to negate: explicitly skipped), both
+    add(modes=["negative"])
+    add(modes=["negative"], phases=all_unit, behaviour="fail:/a")
+    add(modes=["positive", "negative"], phases=["coverage"], behaviour="fail:/b", cof=True)
+    # -- documents with ONE operation (with / without parameters); two workers: one of them finds nothing to do
+    add(doc="one_a", phases=all_unit)
+    add(doc="one_a", phases=all_unit, behaviour="fail:/a")
+    add(doc="one_b", phases=all_unit)
+    add(doc="one_b", behaviour="fail:/b", workers=2, p=1)
+    add(doc="one_b", workers=2, p=1)
+    # -- single faults on the operation WITHOUT parameters
+    for stage in ("before_call", "transport", "after_call", "check"):
+        add(fault={"stage": stage, "kind": "RuntimeError", "path": "/b", "k": 1, "persistent": False})
+    # -- single faults met in the examples / coverage phase rather than while fuzzing
+    for phase, stages in (("examples", ("transport", "check")), ("coverage", ("before_call", "transport", "check"))):
+        for stage in stages:
+            add(phases=[phase], fault={"stage": stage, "kind": "RuntimeError", "path": "/a", "k": 1, "persistent": False})
+    add(phases=all_unit, fault={"stage": "check", "kind": "RuntimeError", "path": "/a", "k": 2, "persistent": False})
+    # -- single faults on the SECOND step of a stateful sequence (the linked operation)
+    for stage, kind in (("before_call", "RuntimeError"), ("transport", "RuntimeError"), ("transport", "ConnectionError"),
+                        ("after_call", "RuntimeError"), ("check", "RuntimeError")):
+        add(doc="link", phases=["stateful"], fault={"stage": stage, "kind": kind, "path": "/users/", "k": 1, "persistent": False})
 
 
 def _phase_name(event: Any) -> str:
@@ -181,6 +231,8 @@ def judge(item: dict, run: Any, r: Any, fault_state: Any, res: Result, current_i
             "stateful": "stateful" in item["phases"], "workers_gt1": item["workers"] > 1}
     if item["doc"] in ee.BROKEN_DOCS:
         base["schema_defect"] = item["doc"]
+    if item.get("unique"):
+        base["unique_inputs"] = True
     code, console = cli_exit_code(item, events)
     nonzero = not (code == 0 or code is None)
 
@@ -224,12 +276,32 @@ def judge(item: dict, run: Any, r: Any, fault_state: Any, res: Result, current_i
     for x in r.exchanges:
         # requests of the probing phase (OPTIONS/GET on the base path) are not operations of the document
         is_operation = x.path in op_paths or (item["doc"] == "link" and x.path.startswith("/users/"))
-        if x.status is not None and x.status >= 500 and is_operation:
+        if ee.is_violating(item["behaviour"], x) and is_operation:
             failing_paths.add(x.path)
     schema_defect = item["doc"] in ee.BROKEN_DOCS
     something_wrong = fired or bool(failing_paths) or bool(r.worker_errors) or schema_defect
     bad_scenarios = [e for e, n in zip(events, names) if n == "ScenarioFinished" and getattr(e.status, "name", "") in ("FAILURE", "ERROR")]
     errors = [e for e, n in zip(events, names) if n == "NonFatalError"]
+    # coverage counters of the review-round-2 shapes (asserted in vacuity)
+    enabled = [ph for ph in item["phases"] if ph != "probing"]
+    if item["behaviour"] == "bad_body" and failing_paths:
+        res.count("r2_body_violating_documented_status_answered")
+    if item["behaviour"] == "fail_linked_user" and failing_paths and len(enabled) > 1 and {_phase_name(e) for e in bad_scenarios} == {"STATEFUL_TESTING"}:
+        res.count("r2_failure_in_stateful_phase_only_after_clean_unit_phases")
+    if item["behaviour"].startswith(("nth:", "even:")) and item["cof"]:
+        statuses = [x.status for x in r.exchanges if x.path == item["behaviour"].split(":")[1]]
+        if 500 in statuses and 200 in statuses[statuses.index(500):]:
+            res.count("r2_failing_response_followed_by_passing_one_of_same_operation")
+    if fired and enabled in (["examples"], ["coverage"]):
+        res.count("r2_fault_fired_in_" + enabled[0] + "_phase")
+    if fired and fault.get("path") == "/users/":
+        res.count("r2_fault_fired_on_second_stateful_step")
+    if fired and fault.get("path") == "/b":
+        res.count("r2_fault_fired_on_operation_without_parameters")
+    if item["doc"] in ("one_a", "one_b"):
+        res.count("r2_single_operation_document_runs")
+    if item.get("modes"):
+        res.count("r2_runs_with_generation_modes:" + "+".join(item["modes"]))
     if something_wrong:
         res.nontriv([item, ee.events_brief(events)])
         if not nonzero:
@@ -324,4 +396,11 @@ def vacuity(total: Result, tier: str) -> list[str]:
         out.append("fewer than 20 distinct executions with a fired fault or failing check")
     if not total.counters.get("fault_free_runs"):
         out.append("no fault-free conforming run (converse direction never judged)")
+    for key in ("r2_body_violating_documented_status_answered", "r2_failure_in_stateful_phase_only_after_clean_unit_phases",
+                "r2_failing_response_followed_by_passing_one_of_same_operation", "r2_fault_fired_in_examples_phase",
+                "r2_fault_fired_in_coverage_phase", "r2_fault_fired_on_second_stateful_step",
+                "r2_fault_fired_on_operation_without_parameters", "r2_single_operation_document_runs",
+                "r2_runs_with_generation_modes:negative", "r2_runs_with_generation_modes:positive+negative"):
+        if not total.counters.get(key):
+            out.append(f"review-round-2 shape never exercised: {key}")
     return out
